@@ -1659,6 +1659,12 @@ namespace jsoncons {
             return *result;
         }
 
+        // three-way comparison of doubles; subtracting would give NaN for two equal infinities
+        static int compare_double(double lhs, double rhs) noexcept
+        {
+            return lhs == rhs ? 0 : (lhs < rhs ? -1 : 1);
+        }
+
         int compare(const basic_json& rhs) const noexcept
         {
             if (this == &rhs)
@@ -1733,8 +1739,7 @@ namespace jsoncons {
                                 return static_cast<uint64_t>(cast<int64_storage>().value()) < rhs.cast<uint64_storage>().value() ? -1 : 1;
                         case json_storage_kind::float64:
                         {
-                            double r = static_cast<double>(cast<int64_storage>().value()) - rhs.cast<double_storage>().value();
-                            return r == 0.0 ? 0 : (r < 0.0 ? -1 : 1);
+                            return compare_double(static_cast<double>(cast<int64_storage>().value()), rhs.cast<double_storage>().value());
                         }
                         case json_storage_kind::const_json_ref:
                             return compare(rhs.cast<const_json_ref_storage>().value());
@@ -1765,8 +1770,7 @@ namespace jsoncons {
                                 return cast<uint64_storage>().value() < static_cast<uint64_t>(rhs.cast<int64_storage>().value()) ? -1 : 1;
                         case json_storage_kind::float64:
                         {
-                            auto r = static_cast<double>(cast<uint64_storage>().value()) - rhs.cast<double_storage>().value();
-                            return r == 0 ? 0 : (r < 0.0 ? -1 : 1);
+                            return compare_double(static_cast<double>(cast<uint64_storage>().value()), rhs.cast<double_storage>().value());
                         }
                         case json_storage_kind::const_json_ref:
                             return compare(rhs.cast<const_json_ref_storage>().value());
@@ -1785,18 +1789,15 @@ namespace jsoncons {
                     {
                         case json_storage_kind::int64:
                         {
-                            auto r = cast<double_storage>().value() - static_cast<double>(rhs.cast<int64_storage>().value());
-                            return r == 0 ? 0 : (r < 0.0 ? -1 : 1);
+                            return compare_double(cast<double_storage>().value(), static_cast<double>(rhs.cast<int64_storage>().value()));
                         }
                         case json_storage_kind::uint64:
                         {
-                            auto r = cast<double_storage>().value() - static_cast<double>(rhs.cast<uint64_storage>().value());
-                            return r == 0 ? 0 : (r < 0.0 ? -1 : 1);
+                            return compare_double(cast<double_storage>().value(), static_cast<double>(rhs.cast<uint64_storage>().value()));
                         }
                         case json_storage_kind::float64:
                         {
-                            auto r = cast<double_storage>().value() - rhs.cast<double_storage>().value();
-                            return r == 0 ? 0 : (r < 0.0 ? -1 : 1);
+                            return compare_double(cast<double_storage>().value(), rhs.cast<double_storage>().value());
                         }
                         case json_storage_kind::const_json_ref:
                             return compare(rhs.cast<const_json_ref_storage>().value());
@@ -1829,8 +1830,7 @@ namespace jsoncons {
                     {
                         case json_storage_kind::half_float:
                         {
-                            auto r = as_double() - rhs.as_double();
-                            return r == 0 ? 0 : (r < 0.0 ? -1 : 1);
+                            return compare_double(as_double(), rhs.as_double());
                         }
                         case json_storage_kind::const_json_ref:
                             return compare(rhs.cast<const_json_ref_storage>().value());
@@ -1849,18 +1849,15 @@ namespace jsoncons {
                         {
                             case json_storage_kind::int64:
                             {
-                                auto r = val1 - static_cast<double>(rhs.cast<int64_storage>().value());
-                                return r == 0 ? 0 : (r < 0.0 ? -1 : 1);
+                                return compare_double(val1, static_cast<double>(rhs.cast<int64_storage>().value()));
                             }
                             case json_storage_kind::uint64:
                             {
-                                auto r = val1 - static_cast<double>(rhs.cast<uint64_storage>().value());
-                                return r == 0 ? 0 : (r < 0.0 ? -1 : 1);
+                                return compare_double(val1, static_cast<double>(rhs.cast<uint64_storage>().value()));
                             }
                             case json_storage_kind::float64:
                             {
-                                auto r = val1 - rhs.cast<double_storage>().value();
-                                return r == 0 ? 0 : (r < 0.0 ? -1 : 1);
+                                return compare_double(val1, rhs.cast<double_storage>().value());
                             }
                             case json_storage_kind::const_json_ref:
                                 return compare(rhs.cast<const_json_ref_storage>().value());
@@ -1870,12 +1867,7 @@ namespace jsoncons {
                                 if (is_string_storage(rhs.storage_kind()) && is_number_tag(rhs.tag()))
                                 {
                                     double val2 = rhs.as_double();
-                                    if (val1 == val2)
-                                    {
-                                        return 0;
-                                    }
-                                    auto r = val1 - val2; 
-                                    return r == 0 ? 0 : (r < 0.0 ? -1 : 1);
+                                    return compare_double(val1, val2);
                                 }
                                 else if (is_string_storage(rhs.storage_kind()))
                                 {
